@@ -86,9 +86,9 @@ NOTES['C04'] = {'technique': 'Lean 4 proof (policy unlink/add accounting lemmas 
     'text': 'Theorems for every policy state: an unknown (unlinked) node costs nothing on removal - no counter changes, no deque changes (no uint64 underflow); after makeDead a node is in no deque; an out-of-order add changes no deque and no counter; the eviction loop skips zero-weight entries before any eviction decision. '
             'Tie: UNIT-policy reproduces deques/counters/evictions exactly (in-order and out-of-order), audit incl. "weightedSize <= maximum after evictNodes unless only zero-weight entries remain"; CONC-policy audits real concurrent runs; SEQ checks the bound after CleanUp against Spec incl. SetMaximum and weight-changing updates.',
     'note': _POL_NOTE}
-NOTES['C05'] = {'technique': 'Lean 4 proof (a node is accounted for exactly while linked) + exact white-box differential with per-call audit + concurrent quiescence audit + SEQ view oracles',
+NOTES['C05'] = {'technique': 'Lean 4 proof by induction over ALL event orders (Reach: linked = introduced and alive, never dead, linked once; weightedSize = sum of linked weights in uint64) + exact white-box differential with per-call audit + concurrent quiescence audit + SEQ view oracles',
     'engine': 'proof+unit-policy+conc-policy+seq',
-    'text': 'Same model and theorems as C04 (weight accounted iff linked; removal unlinks; out-of-order add is a no-op). Tie: per-call audit (linked nodes = mapped nodes, none dead, each counter = weight sum, queue types consistent) on exact states for in-order and out-of-order event sequences; '
+    'text': 'Props.C05 over Proofs.PolicyLink/PolicyWeight: for every state reachable by any sequence of node creations/removals, add/update/delete events in any order, reads, evictNodes, climb and SetMaximum (only hypothesis: a node is introduced once, checked on every real trace by the driver): a linked node is introduced and not dead, an introduced alive node is linked, no node is linked twice, at quiescence linked = introduced and alive, and weightedSize = sum of the linked weights mod 2^64. Plus the C04 theorems. Tie: per-call audit (linked nodes = mapped nodes, none dead, each counter = weight sum, queue types consistent) on exact states for in-order and out-of-order event sequences; '
             'CONC-policy: table vs deques vs counters vs Coldest/All at real quiescent points; SEQ: WeightedSize, EstimatedSize, Hottest/Coldest = All against Spec, incl. deferred executor with keys rewritten before maintenance (K1).',
     'note': _POL_NOTE}
 
